@@ -98,7 +98,7 @@ class C08(diffcheck.DiffProp):
     pid = "C08"
     manifest = dict(
         text="Coq: a reference semantics of files (pread/pwrite with zero-filled holes, cursor, O_APPEND, ftruncate, vectored forms as sequential composition), pipes (FIFO with capacity and EOF), open-option flag composition and a small POSIX name space, with machine-checked laws (write-then-read, truncate/extend, append positions, vectored = sequential), and a GLUE theorem over compio's buffer-view model: for every buffer shape (Vec with len <= cap, slice / uninit views, vectored layouts) and every OS answer n <= offered length the BufResult and buffer are exactly what the reference predicts (bytes at the start of the offered window, everything else untouched, length = max(old, n)); the mapping is one function of the OS answer for all three drivers. Tie to the code: every generated operation sequence is executed four ways (compio-fs on io_uring, on the polling driver, on io_uring with the fs opcodes forced onto the thread-pool fallback, and std::fs/libc) in fresh directories and by the extracted reference; all five must agree token for token.",
-        note="PARTIAL. PROVED (Coq, no axioms): self-consistency laws of the reference; the glue (offered ranges, map_advanced / map_vec_advanced length rule incl. vectored distribution, u32 clamp on io_uring never offers more than the buffer, open-flag table total and equal to std's OpenOptions) maps ANY OS answer to the reference's prediction; driver independence of that mapping IN THE MODEL. ONLY OBSERVED (differential run, sampled operation sequences on this kernel/file system, uid 0): that the kernel behaves like the reference, that the three compio code paths (ring SQE, readiness + syscall / blocking pool, call_blocking fallback) agree with each other and with the OS, the name-space utilities (create_dir(_all), remove_*, rename, hard_link, symlink, metadata, set_permissions), error kinds. The fallback of Read/Write/Readv/Writev/Fsync cannot be forced (call_blocking is unreachable!() for them); run C forces it for OpenAt, Close, Statx, Ftruncate, UnlinkAt, MkDirAt, RenameAt, SymlinkAt, LinkAt, Pipe through the cfg(compio_verif) hook compio_driver::verif_mask. compio-fs has no OpenOptions::append (O_APPEND goes through custom_flags). Vectored reads into members that are not in sequential-fill order fall under C10's known finding (advance_vec_to no-op); the model is faithful to the code there and the OS comparison ignores Vec lengths. Pipes are kept below 4 KiB in flight (capacity effects belong to C20). Sequential (cursor) file operations are exercised through compio_runtime::fd::AsyncFd over a dup of the compio-opened descriptor (compio_fs::File itself is positional only). Known finding C08-iour-zero-length-read-of-directory: a zero-length read through a directory handle is Ok(0) on the kernel's ring and IsADirectory through read(2)/pread(2) (kernel behaviour passed through by compio). Trusted: Coq kernel, extraction + driver, harness/rt/src/bin/c08.rs, tools/gen_c08.py, tools/p_c08.py.",
+        note="PARTIAL. PROVED (Coq, no axioms): self-consistency laws of the reference; the glue (offered ranges, map_advanced / map_vec_advanced length rule incl. vectored distribution, u32 clamp on io_uring never offers more than the buffer, open-flag table total and equal to std's OpenOptions; the mode is handed to openat unchanged with every flag word, the kernel consumes it for O_CREAT and O_TMPFILE and the created file gets mode & ~umask; create_dir_all on a path that is already a directory through symbolic links is Ok and changes nothing) maps ANY OS answer to the reference's prediction; driver independence of that mapping IN THE MODEL. ONLY OBSERVED (differential run, sampled operation sequences on this kernel/file system, uid 0): that the kernel behaves like the reference, that the three compio code paths (ring SQE, readiness + syscall / blocking pool, call_blocking fallback) agree with each other and with the OS, the name-space utilities (create_dir(_all), remove_*, rename, hard_link, symlink, metadata, set_permissions), error kinds. The fallback of Read/Write/Readv/Writev/Fsync cannot be forced (call_blocking is unreachable!() for them); run C forces it for OpenAt, Close, Statx, Ftruncate, UnlinkAt, MkDirAt, RenameAt, SymlinkAt, LinkAt, Pipe through the cfg(compio_verif) hook compio_driver::verif_mask. compio-fs has no OpenOptions::append (O_APPEND goes through custom_flags). Vectored reads into members that are not in sequential-fill order fall under C10's known finding (advance_vec_to no-op); the model is faithful to the code there and the OS comparison ignores Vec lengths. Pipes are kept below 4 KiB in flight (capacity effects belong to C20). Sequential (cursor) file operations are exercised through compio_runtime::fd::AsyncFd over a dup of the compio-opened descriptor (compio_fs::File itself is positional only). Known finding C08-iour-zero-length-read-of-directory: a zero-length read through a directory handle is Ok(0) on the kernel's ring and IsADirectory through read(2)/pread(2) (kernel behaviour passed through by compio). Trusted: Coq kernel, extraction + driver, harness/rt/src/bin/c08.rs, tools/gen_c08.py, tools/p_c08.py.",
         technique="Coq glue proof over a reference specification + 4-way differential correspondence (io_uring / polling / forced thread-pool fallback / std+libc) against the extracted reference")
     prop_file = "prop/C08.v"
     model_name = "c08"
@@ -112,7 +112,7 @@ class C08(diffcheck.DiffProp):
             "slots, 2 pipes, 6 names up to depth 3; 80% stateful-plausible, 20% adversarial open bits): positional and "
             "sequential single/vectored reads and writes with offsets beyond EOF, length 0, len != cap, slice / uninit "
             "views, set_len, sync, metadata, open/create/create_new/append/truncate combinations, directory utilities, "
-            "anonymous pipes with partial reads, a read into a 4 GiB+k capacity; every case runs 4 ways + the reference; "
+            "anonymous pipes with partial reads, a read into a 4 GiB+k capacity; 10% of the cases = OpenOptions with mode x custom_flags (O_TMPFILE, O_NOFOLLOW, O_DIRECTORY, O_EXCL, O_APPEND) on existing / missing / symlink / directory paths with the resulting st_mode compared; 10% = directory utilities (create_dir_all, create_dir, remove_*, rename, hard_link, symlink, metadata vs symlink_metadata) on a tree with a directory, a file, links to both and a dangling link, as final or intermediate component; every case runs 4 ways + the reference; "
             "distinct = distinct case lines; non-trivial = at least two operations and one beyond open/close")
     trusted_base = [
         "Coq 8.16.1 kernel (coqc, full .vo build); vm_compute only in examples",
@@ -124,7 +124,7 @@ class C08(diffcheck.DiffProp):
     ]
     assumptions = [
         "the OS answers a read with n <= offered length bytes placed at the start of the offered window (kernel contract)",
-        "the runs are executed as uid 0 on Linux (permission bits do not restrict access); directory modes are not modelled",
+        "the runs are executed as uid 0 on Linux (permission bits do not restrict access) with umask 0o022 (set by the harness); directory modes are constant 0o755",
         "no concurrent modification of the temporary directories; regular-file writes are never short (no ENOSPC/EINTR)",
         "io_uring, the polling driver and the blocking pool are compared on the same kernel; only this kernel's behaviour is observed",
     ]
